@@ -208,10 +208,20 @@ def r3(ctx, prog):
         args = g.nodes[call]["args"]
         ds = [rl.var_of(g, a) for a in args]
         return al_d in ds and of_d in ds and ds.index(of_d) == ds.index(al_d) + 1
+    # what is returned: the expression itself, or — for a result variable (also the result of an inlined helper) — each value it is given
+    returned = []
     for r in g.all(kind="ReturnStmt"):
-        if "val" not in g.nodes[r]:
+        if "val" not in g.nodes[r] or g.nodes[r].get("inl_ret"):
             continue
-        v = g.strip(g.nodes[r]["val"])
+        v0 = g.nodes[r]["val"]
+        d0 = rl.var_of(g, v0)
+        defs0 = [(a, rhs) for a, rhs, op in g.var_defs(d0) if rhs is not None and op in ("=", "decl")] if d0 not in (None, p_d, new_d) and d0 not in g.pids else []
+        if defs0:
+            returned += [(a, rhs) for a, rhs in defs0]
+        else:
+            returned.append((r, v0))
+    for r, v0 in returned:
+        v = g.strip(v0)
         vn = g.nodes[v]
         site = g.where(r)
         if g.cv(v) == 0:
